@@ -201,6 +201,16 @@ var properties = map[string]*propSpec{
 		Assumptions: assume(specAssumption, "cyclic containers are excluded (not in the property's list); reference-like opaque values are compared by identity"),
 		Floors:      opaqueFloors(),
 	},
+	"C16": {
+		Title: "Every object member is addressable; dot and bracket notations are equivalent",
+		Checks: []checkSpec{
+			{Test: "TestC16_Keys", Quick: 6000, Thorough: 100000, Rapid: true},
+		},
+		Assumptions: assume("keys are valid UTF-8 Go strings (what encoding/json produces); the oracle is a plain Go map lookup"),
+		Floors: []floor{
+			{Check: "TestC16_Keys", Class: "nontrivial", Min: 0.6},
+		},
+	},
 	"C17": {
 		Title: "The accepted language is the published grammar; syntax errors point at the spot",
 		Checks: []checkSpec{
